@@ -120,7 +120,10 @@ Plans == <<
   \* 4: explicit commits, several commits per session, reopen between
   <<"open", "write", "commit", "write", "commit", "close", "reopen", "open", "write", "commit", "close", "delete", "gc", "reopen", "delete", "gc">>,
   \* 5: a closed session, then a long session of many small writes (rollover inside a session), reopen
-  <<"open", "write", "close", "open", "write", "write", "write", "close", "reopen", "open", "write", "write", "close", "reopen", "gc", "gc">>
+  <<"open", "write", "close", "open", "write", "write", "write", "close", "reopen", "open", "write", "write", "close", "reopen", "gc", "gc">>,
+  \* 6: one session of many commits (with MaxLen = 1: one sample per commit; under a tiny file cap
+  \*    the 8-byte index channel rolls over at every commit while a 1-byte data channel does not)
+  <<"open", "write", "write", "write", "write", "write", "close", "reopen", "open", "write", "write", "close">>
 >>
 CanKind(kd) ==
   CASE kd = "open" -> ClosedW # {}
@@ -138,10 +141,13 @@ GNextSim == GEnd \/
   /\ Len(hist) < Depth
   /\ \E k \in 1..10, i \in Sel, j \in Sel, m \in Sel :
        \/ /\ k = 1 /\ ClosedW # {} /\ KindOK("open")
-          /\ LET cs == Nth(ChanSets, j) st == (m + 4 * i) % NT
-             IN UsefulOpen(cs, st) /\ GOpen(Nth(ClosedW, i), cs, st, (i + j) % 2 = 0)
+          /\ LET cs == Nth(ChanSets, j) st == IF PlanId = 6 THEN 2 * (m % 2) ELSE (m + 4 * i) % NT
+             IN UsefulOpen(cs, st) /\ GOpen(Nth(ClosedW, i), cs, st, (i + j) % 2 = 0 \/ PlanId = 6)
        \/ /\ k \in {2, 3, 4, 5} /\ OpenW # {} /\ KindOK("write")
-          /\ LET w == Nth(OpenW, i) IN LegalWrites(w) # {} /\ GWrite(w, Nth(LegalWrites(w), m + 4 * j + 16 * (k - 2)))
+          /\ LET w == Nth(OpenW, i)
+                 W == LegalWrites(w)
+             IN W # {} /\ GWrite(w, IF PlanId = 6 THEN CHOOSE ts \in W : \A o \in W : Max(ts) <= Max(o)   \* dense: the next slot(s)
+                                    ELSE Nth(W, m + 4 * j + 16 * (k - 2)))
        \/ /\ k = 6 /\ OpenW # {} /\ j = 0 /\ KindOK("commit")
           /\ LET w == Nth(OpenW, i) IN (wr[w].buf # {} \/ m = 0) /\ ~wr[w].auto /\ GCommit(w)
        \/ /\ k = 7 /\ OpenW # {} /\ j = 0 /\ m < 2 /\ KindOK("close")
